@@ -72,11 +72,15 @@ LIBM_CMDS = {'exp', 'log', 'sin', 'cos', 'tan', 'sinh', 'cosh', 'tanh', 'pow', '
              'sigmoid', 'softmax', 'bce', 'ce', 'mse'}
 
 def uses_libm(lines):
+    cmds = set()
     for l in lines:
         toks = l.split(' ')
-        cmd = toks[2] if len(toks) > 2 and toks[1] == '=' else toks[0]
-        if cmd in LIBM_CMDS:
-            return True
+        cmds.add(toks[2] if len(toks) > 2 and toks[1] == '=' else toks[0])
+    if cmds & LIBM_CMDS:
+        return True
+    # backward rules that go through libm themselves: Div (b.Pow(2))
+    if 'bp' in cmds and 'div' in cmds:
+        return True
     return False
 
 def _floats_close(a, b, exact=False):
